@@ -160,8 +160,8 @@ static void enum_width(const char *ty) {
   typedef typename std::underlying_type<E>::type U;
   const char *ord = OrdName<Orderer>::n();
   for (int o = 0; o + W <= C; o += (C - W > 8 ? 3 : 1)) {
-    for (int k = 0; k < 6; ++k) {
-      store<Orderer>(content(k == 5 ? 8 : k, o, W));
+    for (int k = 0; k < 9; ++k) {
+      store<Orderer>(content(k == 5 ? 8 : (k % 6), o, W));
       BB bb{BufT(g_buf, NB)};
       V view(bb.template GetOffsetStorage<1, 0>(o, W));
       char h[40], h2[40]; hex(h, g_buf, NB);
@@ -169,6 +169,11 @@ static void enum_width(const char *ty) {
       std::string val = ok ? vs(static_cast<U>(view.Read())) : std::string("-");
       U raw = static_cast<U>(k == 0 ? -1 : k == 1 ? 0 : k == 2 ? 1 : static_cast<U>(rnd()));
       if (k == 3) raw = static_cast<U>(static_cast<U>(1) << (W - 1));
+      // the field's own all-ones value, one past it, and the largest positive value of a signed field of this width
+      const int ubits = static_cast<int>(sizeof(U) * 8);
+      if (k == 6) raw = W < ubits ? static_cast<U>((static_cast<unsigned long long>(1) << W) - 1) : static_cast<U>(-1);
+      if (k == 7) raw = W < ubits - 1 ? static_cast<U>(static_cast<unsigned long long>(1) << W) : static_cast<U>(1);
+      if (k == 8) raw = static_cast<U>((static_cast<unsigned long long>(1) << (W - 1)) - 1);
       E arg = static_cast<E>(raw);
       bool could = view.CouldWriteValue(arg), tr = view.TryToWrite(arg);
       hex(h2, g_buf, NB);
